@@ -3,7 +3,6 @@ use std::char::DecodeUtf16Error;
 use std::collections::{BTreeMap, BTreeSet, HashMap, HashSet, LinkedList};
 use std::hash::Hash;
 use std::marker::PhantomData;
-use std::mem::MaybeUninit;
 use std::rc::Rc;
 use std::sync::Arc;
 use std::time::Duration;
@@ -294,12 +293,16 @@ impl<T: BinaryDeserializer, const L: usize> BinaryDeserializer for [T; L] {
             let array: [u8; L] = bytes.try_into()?;
             Ok(unsafe { std::mem::transmute_copy::<[u8; L], [T; L]>(&array) })
         } else {
-            let mut array: [MaybeUninit<T>; L] = unsafe { MaybeUninit::uninit().assume_init() };
-            for (target, item) in array.iter_mut().zip(deserialize_iterator(context)) {
-                *target = MaybeUninit::new(item?);
+            let mut items = Vec::new();
+            for item in deserialize_iterator(context) {
+                items.push(item?);
             }
-            let array: [T; L] = unsafe { std::mem::transmute_copy(&array) };
-            Ok(array)
+            items.try_into().map_err(|items: Vec<T>| {
+                Error::DeserializationFailure(format!(
+                    "Failed to deserialize array: expected {L} elements, got {}",
+                    items.len()
+                ))
+            })
         }
     }
 }
